@@ -1,1 +1,215 @@
-(** Props/C14.v — placeholder, to be written. *)
+(** Props/C14.v — inline Python sees context as variables but cannot leak into it.
+
+    Level: PARTIAL.  The theorems are about Model/PyScope.v: a model of CPython 3.12 name
+    resolution for a mini-Python fragment (validated against the real interpreter by the
+    correspondence run, not derived from it), parameterised by pypyr's own contribution — how
+    the two namespaces are built ([eval_state]/[eval_env]: ChainMap-pretend-dict over
+    [context; imports] with builtins in the dict part; [exec_globals]: shallow copy of the
+    context plus __builtins__ and save).  Quantification is over ALL programs of the fragment,
+    all contexts, heaps, module tables and builtins tables; no size bound. *)
+From PV Require Import PyScope PyScopeProofs.
+Open Scope string_scope.
+
+(** * Reads *)
+
+(** A context key is visible as a plain variable wherever the reference stands: [frames s] is an
+    arbitrary stack of enclosing lambda / comprehension / function scopes (none of which binds
+    [x]), [infn]/[gex] decide between LOAD_NAME and LOAD_GLOBAL — the value is the context's in
+    every case.  No hypothesis on builtins or imports: the context shadows both. *)
+Theorem C14_reads_context_key : forall E x v s,
+  gk E = GChain -> cls E = false -> find_local x (frames s) false = LNotLocal ->
+  ns_get x (ctx s) = Some v -> load_var E x s = (Ok v, s).
+Proof. exact load_ctx_key. Qed.
+Print Assumptions C14_reads_context_key.
+
+(** the same, syntactically: under any number of enclosing lambdas *)
+Theorem C14_reads_under_lambdas : forall k v xs n E s,
+  gk E = GChain -> cls E = false -> ~ In k xs ->
+  find_local k (frames s) false = LNotLocal -> ns_get k (ctx s) = Some v ->
+  eval (length xs + S n) E (nest_lam xs (XName k)) s = (Ok v, s).
+Proof. exact read_under_lambdas. Qed.
+Print Assumptions C14_reads_under_lambdas.
+
+(** names imported through pyimport are visible when the context does not define them *)
+Theorem C14_reads_imports_after_context : forall E x v s,
+  gk E = GChain -> cls E = false -> find_local x (frames s) false = LNotLocal ->
+  ns_get x (ctx s) = None -> ns_get x (imps s) = Some v -> load_var E x s = (Ok v, s).
+Proof. exact load_import. Qed.
+Print Assumptions C14_reads_imports_after_context.
+
+(** builtins come last *)
+Theorem C14_reads_builtins_last : forall E x v s,
+  gk E = GChain -> cls E = false -> find_local x (frames s) false = LNotLocal ->
+  ns_get x (ctx s) = None -> ns_get x (imps s) = None -> ns_get x (nsd s) = None ->
+  ns_get x (bi E) = Some v -> load_var E x s = (Ok v, s).
+Proof. exact load_builtin. Qed.
+Print Assumptions C14_reads_builtins_last.
+
+(** py blocks: every context key (other than the two names pypyr injects) starts out as a
+    global of the block, and a global is visible at every nesting depth *)
+Theorem C14_exec_sees_context : forall c x, x <> "save" -> x <> "__builtins__" ->
+  ns_get x (exec_globals c) = ns_get x c.
+Proof. exact exec_globals_get. Qed.
+Print Assumptions C14_exec_sees_context.
+
+Theorem C14_exec_reads_global : forall E x v s,
+  gk E = GPlain -> cls E = false -> find_local x (frames s) false = LNotLocal ->
+  ns_get x (g s) = Some v -> load_var E x s = (Ok v, s).
+Proof. exact load_exec_global. Qed.
+Print Assumptions C14_exec_reads_global.
+
+(** * exec cannot leak *)
+
+(** Running ANY block: the final context is the initial one with the dicts that save(...) handed
+    to context.update applied in order — nothing else — and every key of those dicts is an
+    argument (positional name or keyword) of a save(...) statement of the block.  Locals,
+    imports, defs, classes, __builtins__ and deletions stay in the copy. *)
+Theorem C14_exec_no_leak : forall mt b blk c h,
+  let s' := snd (run_exec mt b blk c h) in
+  ctx s' = apply_saves c (saves s')
+  /\ Forall (fun d => incl (ns_keys d) (block_targets blk)) (saves s').
+Proof. exact run_exec_frame. Qed.
+Print Assumptions C14_exec_no_leak.
+
+(** a key that no save(...) names keeps its binding (same value, same object reference) *)
+Theorem C14_exec_key_untouched : forall mt b blk c h k,
+  ~ In k (block_targets blk) -> ns_get k (ctx (snd (run_exec mt b blk c h))) = ns_get k c.
+Proof. exact run_exec_key_untouched. Qed.
+Print Assumptions C14_exec_key_untouched.
+
+(** every key of the final context was there before or is a save(...) argument *)
+Theorem C14_exec_new_keys_are_saved : forall mt b blk c h k,
+  In k (ns_keys (ctx (snd (run_exec mt b blk c h)))) -> In k (ns_keys c) \/ In k (block_targets blk).
+Proof. exact run_exec_new_keys. Qed.
+Print Assumptions C14_exec_new_keys_are_saved.
+
+(** no expression evaluated against the exec globals touches context, save log or imports *)
+Theorem C14_exec_expressions_frame : forall fuel E e s r s',
+  gk E = GPlain -> eval fuel E e s = (r, s') ->
+  ctx s' = ctx s /\ saves s' = saves s /\ imps s' = imps s.
+Proof. intros fuel E e s r s' G H. exact (sound_eval_plain fuel E e G s r s' H). Qed.
+Print Assumptions C14_exec_expressions_frame.
+
+(** * In-place mutation stays visible *)
+Theorem C14_inplace_visible_exec : forall mt b c h k r items z,
+  ns_get k c = Some (PRef r) -> nth_error h r = Some (OList items) ->
+  k <> "save" -> k <> "__builtins__" ->
+  let res := run_exec mt b [SExpr (XAppend (XName k) (XInt z))] c h in
+  fst res = Ok tt /\ ctx (snd res) = c
+  /\ nth_error (heap (snd res)) r = Some (OList (items ++ [PInt z])).
+Proof. exact exec_append_visible. Qed.
+Print Assumptions C14_inplace_visible_exec.
+
+Theorem C14_inplace_visible_eval : forall mt b c i d h k r items z,
+  ns_get k c = Some (PRef r) -> nth_error h r = Some (OList items) -> k <> "__builtins__" ->
+  let res := run_eval mt b (XAppend (XName k) (XInt z)) (eval_state c i d h) in
+  fst res = Ok PNone /\ ctx (snd res) = c
+  /\ nth_error (heap (snd res)) r = Some (OList (items ++ [PInt z])).
+Proof. exact eval_append_visible. Qed.
+Print Assumptions C14_inplace_visible_eval.
+
+(** * eval cannot leak — FALSE of the faithful model.
+
+    Full statement (kept visible, not provable):
+      forall mt b e s, ctx (snd (run_eval mt b e s)) = ctx s.
+    Witness: the !py expression [(y := a + 2)] over context {a: 1}.  A module-level assignment
+    expression compiles to STORE_NAME, which goes to the locals mapping = the namespace object
+    = ChainMap.__setitem__ = maps[0] = the context itself. *)
+Theorem C14_eval_no_leak_refuted : exists mt b e s, ctx (snd (run_eval mt b e s)) <> ctx s.
+Proof.
+  exists std_mods, std_builtins, leak_expr, (eval_state leak_ctx [] [] []).
+  rewrite eval_leak_witness. discriminate.
+Qed.
+Print Assumptions C14_eval_no_leak_refuted.
+
+(** What does hold: if every [:=] that is not inside a lambda body targets a name the compiler
+    made global-explicit (i.e. it sits inside a comprehension: STORE_GLOBAL goes to the raw dict
+    part of the namespace object, not to the context), evaluation leaves context, save log and
+    imports untouched.  Covers walrus-free expressions, [:=] inside lambdas and [:=] inside
+    comprehensions; excludes exactly the module-level [:=]. *)
+Theorem C14_eval_no_leak_partial : forall mt b e s,
+  safe (gexs e) e = true ->
+  let s' := snd (run_eval mt b e s) in
+  ctx s' = ctx s /\ saves s' = saves s /\ imps s' = imps s.
+Proof. intros mt b e s H. exact (run_eval_safe mt b e s H). Qed.
+Print Assumptions C14_eval_no_leak_partial.
+
+Theorem C14_eval_no_leak_walrus_free : forall mt b e s,
+  walrus_free e = true -> ctx (snd (run_eval mt b e s)) = ctx s.
+Proof. intros mt b e s H. apply run_eval_safe. apply walrus_free_safe. exact H. Qed.
+Print Assumptions C14_eval_no_leak_walrus_free.
+
+(** * Non-vacuity: concrete programs, evaluated *)
+Definition c1 : ns := [("a", PInt 1); ("lst", PRef 0); ("len", PInt 9)].
+Definition h1 : list obj := [OList [PInt 1; PInt 2]].
+Definition N := XName.
+
+(** reads at depth: lambda in comprehension in lambda; three for clauses; the context's [len]
+    shadows the builtin at every depth *)
+Example C14_reads_nonvacuous :
+  eval_case std_mods std_builtins 1 h1 c1 [SFrom "math" "gcd" "gcd"]
+    [ XLam ["q"] (XComp (XLam ["z"] (XBin BAdd (XBin BAdd (N "z") (N "x")) (XBin BAdd (N "q") (N "a"))) [XInt 1])
+                        [("x", N "lst")]) [XInt 10];
+      XComp (XBin BAdd (XBin BAdd (N "x") (N "y")) (XBin BAdd (N "z") (N "a")))
+            [("x", N "lst"); ("y", N "lst"); ("z", XList [N "a"])];
+      XList [N "len"; XLam [] (N "len") []; XComp (N "len") [("i", XList [XInt 0])] ];
+      XCall (N "gcd") [XInt 4; XInt 6] ]
+  = Some (mk_obs
+      [ Ok (CList 1000 [CInt 13; CInt 14]);
+        Ok (CList 1001 [CInt 4; CInt 5; CInt 5; CInt 6]);
+        Ok (CList 1002 [CInt 9; CInt 9; CList 1003 [CInt 9]]);
+        Ok (CInt 2) ]
+      [("a", CInt 1); ("lst", CList 0 [CInt 1; CInt 2]); ("len", CInt 9)]
+      [("gcd", CNative "math.gcd")] []).
+Proof. vm_compute. reflexivity. Qed.
+
+Example C14_reads_under_lambdas_nonvacuous :
+  eval 4 (eval_env std_mods std_builtins XNone) (nest_lam ["x"; "y"; "z"] (XName "a"))
+       (eval_state c1 [] [] h1) = (Ok (PInt 1), eval_state c1 [] [] h1).
+Proof. vm_compute. reflexivity. Qed.
+
+(** exec: locals, import, def, class, loop variable, deletion stay out; save's arguments go in;
+    the function body reads the context key [a] *)
+Example C14_exec_nonvacuous :
+  exec_case std_mods std_builtins 1 h1 [("a", PInt 1); ("lst", PRef 0)]
+    [ SAssign "x" (XBin BAdd (N "a") (XInt 1)); SImport "math";
+      SDef "f" ["q"] (XBin BAdd (N "q") (N "a"));
+      SClass "C" [("p", N "a")];
+      SExpr (XComp (N "i") [("i", N "lst")]);
+      SExpr (XAppend (N "lst") (XInt 3));
+      SDel "lst";
+      SSave ["x"] [("r", XCall (N "f") [XInt 1])] ]
+  = Some (mk_obs [Ok CNone]
+      [("a", CInt 1); ("lst", CList 0 [CInt 1; CInt 2; CInt 3]); ("x", CInt 2); ("r", CInt 2)]
+      [] []).
+Proof. vm_compute. reflexivity. Qed.
+
+(** rebinding a context key inside the block rebinds the copy only; exactly the save(...)
+    arguments arrive in the context *)
+Example C14_exec_no_leak_nonvacuous :
+  block_targets [SAssign "x" (XInt 1); SSave ["x"] [("r", XInt 2)]] = ["x"; "r"]
+  /\ exec_case std_mods std_builtins 1 h1 [("a", PInt 1); ("lst", PRef 0)]
+       [SAssign "x" (XInt 1); SAssign "a" (XInt 5); SSave ["x"] [("r", XInt 2)]]
+     = Some (mk_obs [Ok CNone]
+         [("a", CInt 1); ("lst", CList 0 [CInt 1; CInt 2]); ("x", CInt 1); ("r", CInt 2)] [] []).
+Proof. split; vm_compute; reflexivity. Qed.
+
+(** the partial theorem applies to [:=] inside a lambda and inside a comprehension; the latter
+    does not reach the context but does pollute the namespace object's dict part, where a later
+    module-level read (LOAD_NAME) finds it and a read from a lambda (LOAD_GLOBAL) does not *)
+Definition e_lam : expr := XLam ["x"] (XWalrus "y" (N "x")) [XInt 5].
+Definition e_comp : expr := XComp (XWalrus "y" (N "x")) [("x", N "lst")].
+Example C14_eval_partial_nonvacuous :
+  safe (gexs e_lam) e_lam = true /\ safe (gexs e_comp) e_comp = true
+  /\ safe (gexs leak_expr) leak_expr = false
+  /\ eval_case std_mods std_builtins 1 h1 [("a", PInt 1); ("lst", PRef 0)] []
+       [e_lam; e_comp; N "y"; XLam [] (N "y") []]
+     = Some (mk_obs
+         [Ok (CInt 5); Ok (CList 1000 [CInt 1; CInt 2]); Ok (CInt 2);
+          Err "NameError" "name 'y' is not defined"]
+         [("a", CInt 1); ("lst", CList 0 [CInt 1; CInt 2])] [] [("y", CInt 2)]).
+Proof. repeat split; vm_compute; reflexivity. Qed.
+
+Example C14_inplace_nonvacuous :
+  ns_get "lst" c1 = Some (PRef 0) /\ nth_error h1 0 = Some (OList [PInt 1; PInt 2]).
+Proof. split; reflexivity. Qed.
